@@ -139,6 +139,35 @@ def gen(rng, tier):
     return pairs
 
 
+def gen_1272(rng, tier):
+    """SX1272 (no Semtech reference driver for it is vendored): the same operations on randomised prior register contents, driver against
+    the Coq model, pin level and final register file"""
+    quick = tier == "quick"
+    head = "phy chip=sx1272 tcxo=- dcdc=0 rxboost=0 txboost=%d fault=- regs=%s reads=- fill=0 buf=- | "
+    lines = []
+    for sf in range(1, 8):
+        for bw in range(7, 10):
+            for cr in range(4):
+                regs = "29:%d,30:%d,49:%d" % (rng.below(256), rng.below(256), rng.below(256))
+                lines.append(head % (0, regs) + "mod %d %d %d 868100000 | dumpregs" % (sf, bw, cr))
+    for p in [0, 8, 300, 65535] + [rng.below(65536) for _ in range(2 if quick else 12)]:
+        for flags in range(8):
+            regs = "29:%d,30:%d,51:%d,59:%d" % (rng.below(256), rng.below(256), rng.below(256), rng.below(256))
+            lines.append(head % (0, regs) + "pkt %d %d %d %d %d 2 | dumpregs" % (p, flags & 1, rng.below(256), (flags >> 1) & 1, (flags >> 2) & 1))
+            lines.append(head % (0, regs) + "mod %d %d %d 868100000 | pkt %d %d %d %d %d 2 | dumpregs"
+                         % (rng.choice([6, 7]), 7, rng.below(4), p, flags & 1, rng.below(256), (flags >> 1) & 1, (flags >> 2) & 1))
+    for n in (list(range(4, 1024, 61 if quick else 3)) + [1023, 2000, 65535]):
+        lines.append(head % (0, "30:%d" % rng.below(256)) + "rx s %d | dumpregs" % n)
+    for w in ([0x34, 0x12, 0, 0xFF] if quick else range(0, 256, 5)):
+        lines.append(head % (0, "-") + "sync %d | dumpregs" % (((w & 0xF0) | 4) << 8 | ((w & 0x0F) << 4) | 4))
+    for boost in (0, 1):
+        for pw in range(-4, 21):
+            lines.append(head % (boost, "9:%d,90:%d" % (rng.below(256), rng.below(256))) + "power %d - 1 | dumpregs" % pw)
+    for f in (863000000, 868100000, 869525000, 902300000, 915000000, 923300000, 927500000, 865062500):
+        lines.append(head % (0, "-") + "chan %d | dumpregs" % f)
+    return lines
+
+
 def compare(kind, phy_out, ref_out):
     po, ro = phy_out.split(" ; "), ref_out.split(" ; ")
     if any(x.startswith("PANIC") for x in po):
@@ -185,6 +214,7 @@ def run(rep, tier, rng):
     phy_lines = [p[0] for p in pairs]
     # model vs driver (pin-level, exact); disagreements are judged against the reference below
     core.diff_stage(rep, "X:C13:model-vs-driver(pin level)", [l.replace(" | dumpregs", "") for l in phy_lines], lambda c, i, m: None)
+    core.diff_stage(rep, "X:C13:sx1272 model-vs-driver(pin level + register file)", gen_1272(rng, tier), lambda c, i, m: None)
     po = core.run_lines(core.harness_bin(), phy_lines)
     ro = core.run_lines(core.harness_bin(), [p[1] for p in pairs])
     bad = 0
@@ -205,5 +235,7 @@ def run(rep, tier, rng):
                        "137-1020 MHz, every SF x BW x CR (with LDRO) on randomised TxModulation contents, packet parameters (preambles x lengths x header/CRC/IQ) on randomised IQ-polarity register "
                        "contents, sync words, sleep/standby/SetTx/ClearIrq/CW/buffer base, FIFO writes, IRQ masks, SetRx with symbol timeouts 0..255 boosted/not, CAD, PA config + TX params -20..24 dBm, "
                        "image calibration bands, packet status decoding; SX1276 vs the sx127x reference driver by register outcome (Frf, ModemConfig1/2/3 fields, sync word, symbol timeout, preamble / "
-                       "payload / header / CRC / IQ registers, PaConfig / PaDac) on randomised prior register contents; the Coq models run on the same scripts (pin-level, exact)")
+                       "payload / header / CRC / IQ registers, PaConfig / PaDac) on randomised prior register contents; the Coq models run on the same scripts (pin-level, exact); "
+                       "SX1272 (no vendored reference): modulation / packet parameters (all flag combinations, alone and after set_modulation_params) / symbol timeout / sync word / TX power / "
+                       "frequency on randomised prior register contents, driver against the Coq model at pin level and by final register file")
     core.finish_proof_failures(rep)
